@@ -157,7 +157,17 @@ let handle_s (toks : string list) : string =
       let sorted = pa_sort keys tagged in
       let ids = List.map (fun r -> match r with (_, PaNum x) :: _ -> string_of_int (Win.int_of_z x.qnum) | _ -> "?") sorted in
       if ids = out then (if List.length rows >= 2 then "ok nt" else "ok")
-      else Printf.sprintf "diff sort impl=%s model=%s" (String.concat "," out) (String.concat "," ids)
+      else begin
+        (* judge the implementation's own order: is it sorted by the key list at all? *)
+        let arr = Array.of_list tagged in
+        let impl_rows = List.map (fun s -> arr.(int_of_string s)) out in
+        let rec sorted = function
+          | a :: ((b :: _) as r) -> (not (pa_less keys b a)) && sorted r
+          | _ -> true in
+        if List.length out = List.length rows && not (sorted impl_rows)
+        then Printf.sprintf "chk sort_sorted impl=%s model=%s (and model differs)" (String.concat "," out) (String.concat "," ids)
+        else Printf.sprintf "diff sort impl=%s model=%s" (String.concat "," out) (String.concat "," ids)
+      end
   | _ -> "bad line"
 
 let handle (toks : string list) : string =
